@@ -40,6 +40,10 @@ def h_c01(eng):
     _report(eng, a == b == ("ok", False), "is_compatible_with:number-vs-unit-string-asymmetric")
     a, b = _outcome(lambda: ureg.is_compatible_with(1, "radian")), _outcome(lambda: ureg.is_compatible_with("radian", 1))
     _report(eng, a == b == ("ok", True), "is_compatible_with:number-vs-dimensionless-string-asymmetric")
+    # (round 6) a target written as a dict is accepted by to(): the predicate agrees with it
+    ureg6 = regs.float_default()
+    r = _outcome(lambda: ureg6.Quantity(1.0, "meter").is_compatible_with({"inch": 1}))
+    _report(eng, r == ("ok", True), "is_compatible_with:dict-target-that-to()-accepts-is-refused")
 
 
 def h_c03(eng):
@@ -70,6 +74,10 @@ def h_c04(eng):
     ureg = regs.float_default()
     r = _outcome(lambda: ureg.Unit("m") ** np.array([2]))
     _report(eng, r[0] in ("ok", "TypeError"), "pow:array-exponent-raises-ValueError-inside-the-container")
+    # (round 6) a unit is not equal to a text that denotes a thousand of it
+    ureg6 = regs.float_default()
+    r = _outcome(lambda: ureg6.meter == "1000*meter")
+    _report(eng, r == ("ok", False), "unit-eq-string:scale-of-the-text-dropped")
 
 
 def h_c05(eng):
@@ -96,6 +104,10 @@ def h_c06(eng):
     # a prefixed delta unit is still a delta unit
     r = _outcome(lambda: (Qy(10.0, "degC") - Qy(500.0, "millidelta_degC")))
     _report(eng, r[0] == "ok" and str(r[1].units) == "degree_Celsius" and abs(r[1].magnitude - 9.5) < 1e-9, "delta:prefixed-delta-unit-read-as-absolute-temperature")
+    # (round 6) a difference minus an absolute temperature has no meaning: refused
+    ureg6 = regs.float_default()
+    r = _outcome(lambda: ureg6.Quantity(5.0, "delta_degC") - ureg6.Quantity(3.0, "degC"))
+    _report(eng, r[0] != "ok", "delta-minus-offset:accepted-and-labelled-as-a-temperature")
 
 
 def h_c07(eng):
@@ -103,6 +115,14 @@ def h_c07(eng):
     # capital E marks an exponent as in Python's own literals
     r = _outcome(lambda: ureg.parse_expression("(8.0 +/- 4.0)E6 m"))
     _report(eng, r[0] == "ok" and abs(r[1].magnitude.nominal_value - 8e6) < 1, "uncertainty:capital-E-exponent-not-recognised")
+    # (round 6) blanks do not change an implicit product; a power binds tighter than a leading word;
+    # '**' binds tighter than '+/-'
+    a, b = _outcome(lambda: ureg.parse_expression("2(3)")), _outcome(lambda: ureg.parse_expression("2 (3)"))
+    _report(eng, a[0] == b[0] == "ok" and not hasattr(a[1], "std_dev") and a[1] == b[1] == 6, "juxtaposition:2(3)-read-as-an-uncertainty")
+    r = _outcome(lambda: ureg.parse_expression("cubic m ** 2"))
+    _report(eng, r[0] == "ok" and dict(r[1]._units) == {"meter": 6}, "cubic-m-**-2:read-as-m**9")
+    r = _outcome(lambda: ureg.parse_expression("2 +/- 3 ** 2"))
+    _report(eng, r[0] != "ok" or abs(r[1].std_dev - 9.0) < 1e-9, "plus-minus-and-power:precedence")
 
 
 def h_c08(eng):
@@ -191,6 +211,31 @@ def h_c16(eng):
     m = Qy(np.array([[1.0, 2.0], [3.0, 4.0]]), "meter")
     r = _outcome(lambda: ident @ m)
     _report(eng, r[0] == "ok" and np.allclose(r[1].magnitude, ident @ m.magnitude), "matmul:reflected-form-computes-the-forward-product")
+    # (round 6) second operands and keyword forms
+    ureg6 = regs.float_default()
+    Q6 = ureg6.Quantity
+    r = _outcome(lambda: np.fmod(Q6(np.array([5.0]), "m"), Q6(np.array([300.0]), "cm")))
+    _report(eng, r[0] == "ok" and abs(float(r[1].to("m").magnitude[0]) - 2.0) < 1e-12, "fmod:second-operand-not-converted")
+    r = _outcome(lambda: np.clip(Q6(np.array([1.0, 5.0]), "m"), min=Q6(200.0, "cm"), max=Q6(3.0, "m")))
+    _report(eng, r[0] == "ok" and [float(v) for v in r[1].to("m").magnitude] == [2.0, 3.0], "clip:keyword-bounds-recursion")
+
+    def _copyto():
+        a = Q6(np.zeros(2), "m")
+        np.copyto(a, 3.0)
+        return a
+
+    r = _outcome(_copyto)
+    _report(eng, r[0] != "ok", "copyto:bare-nonzero-number-written-into-a-dimensional-array")
+
+    def _fill():
+        a = Q6(np.zeros(2), "m")
+        a.fill(Q6(100.0, "cm"))
+        return a
+
+    r = _outcome(_fill)
+    _report(eng, r[0] == "ok" and str(r[1].units) == "meter" and [float(v) for v in r[1].magnitude] == [1.0, 1.0], "fill:array-takes-the-unit-of-the-value")
+    r = _outcome(lambda: Q6(np.array([3.0, 1.0, 2.0]), "m").searchsorted(Q6(2.5, "m"), sorter=np.array([1, 2, 0])))
+    _report(eng, r[0] == "ok" and int(r[1]) == 2, "searchsorted:sorter-dropped")
 
 
 def h_c17(eng):
